@@ -100,7 +100,7 @@ export function collectRefs(v, out) {
 // Each child receives {index} messages, announces {start, run} before executing and answers
 // {index, result}. Pure function of the index. A child that stays silent for `stallMs` while it
 // works on a run is killed and the run is handed to onStall (and a new child takes over).
-export function pool(script, args, indices, workers, onResult, onStall = null, stallMs = 20000) {
+export function pool(script, args, indices, workers, onResult, onStall = null, stallMs = 20000, env = null) {
   return new Promise((resolve, reject) => {
     let next = 0;
     let live = 0;
@@ -108,7 +108,7 @@ export function pool(script, args, indices, workers, onResult, onStall = null, s
     let stalls = 0;
     const n = Math.max(1, Math.min(workers, indices.length));
     const spawn = () => {
-      const child = fork(script, ["worker", ...args], { stdio: ["ignore", "ignore", "inherit", "ipc"] });
+      const child = fork(script, ["worker", ...args], { stdio: ["ignore", "ignore", "inherit", "ipc"], ...(env ? { env: { ...process.env, ...env } } : {}) });
       live++;
       let busy = null; // {index, run, since}
       let done = false;
@@ -168,12 +168,14 @@ export function pool(script, args, indices, workers, onResult, onStall = null, s
 }
 
 // Execute one explicit run alone in a fresh child with a time limit.
-export function alone(script, args, run, limitMs) {
+export function alone(script, args, run, limitMs, env = null) {
   return new Promise((resolve) => {
-    const child = fork(script, ["worker", ...args], { stdio: ["ignore", "ignore", "inherit", "ipc"] });
-    const t0 = Date.now();
+    const child = fork(script, ["worker", ...args], { stdio: ["ignore", "ignore", "inherit", "ipc"], ...(env ? { env: { ...process.env, ...env } } : {}) });
+    let t0 = Date.now();
+    let cpu0 = 0;
     const t = setInterval(() => {
-      const cpu = cpuSecs(child.pid);
+      const cpuNow = cpuSecs(child.pid);
+      const cpu = cpuNow != null ? cpuNow - cpu0 : null;
       if ((cpu != null && cpu * 1000 > limitMs) || Date.now() - t0 > limitMs * 20) {
         clearInterval(t);
         child.kill("SIGKILL");
@@ -182,7 +184,12 @@ export function alone(script, args, run, limitMs) {
     }, 250);
     child.on("message", (m) => {
       if (m.ready) return child.send({ index: -1, run });
-      if (m.start !== undefined) return;
+      if (m.start !== undefined) {
+        // a second announcement of the same run is a heartbeat: the limit is per call, not per run
+        t0 = Date.now();
+        cpu0 = cpuSecs(child.pid) ?? cpu0;
+        return;
+      }
       clearInterval(t);
       child.send({ done: true });
       resolve(m.fatal ? { fatal: m.fatal } : { result: m.result });
